@@ -31,7 +31,7 @@ static uint32_t rd32 (const unsigned char *p, int big) { return big ? ((uint32_t
 
 static void run_case (int format, int ch, long rate, long N, int pmode, sf_count_t frames_in)
 {	MEMF m ; SNDFILE *s ; SF_INFO wi, ri ; long items = N * ch, done = 0, B = vh_block (format, ch, (int) rate), F ; int t = vh_rint (T_N) ;
-	const char *fn = vh_fname (format) ; int maj = format & SF_FORMAT_TYPEMASK ;
+	const char *fn = vh_fname (format), *opt = "" ; int maj = format & SF_FORMAT_TYPEMASK, downgrade = 0 ;
 	char *wbuf = vh_guard_alloc (items * 8, 0) ;
 	memset (&m, 0, sizeof (m)) ;
 	{	long i ; for (i = 0 ; i < items ; i++)
@@ -43,6 +43,15 @@ static void run_case (int format, int ch, long rate, long N, int pmode, sf_count
 	if (s == NULL)
 	{	/* sf_format_check said yes: C10 judges the disagreement; some (container, rate) pairs are legitimately refused at open */
 		vh_statf (1, "open_refused:%s", fn) ; free (wbuf) ; return ; }
+	/* writer options that change the header's layout or labels, never what was written */
+	switch (vh_rint (8))
+	{	case 0 : if (maj == SF_FORMAT_WAVEX) { sf_command (s, SFC_WAVEX_SET_AMBISONIC, NULL, SF_AMBISONIC_B_FORMAT) ; opt = "|option:ambisonic" ; } break ;
+		case 1 : sf_command (s, SFC_SET_ADD_PEAK_CHUNK, NULL, SF_FALSE) ; if (vh_is_fp (format & SF_FORMAT_SUBMASK)) opt = "|option:no-peak-chunk" ; break ;
+		case 2 : sf_command (s, SFC_SET_UPDATE_HEADER_AUTO, NULL, SF_TRUE) ; opt = "|option:auto-header-update" ; break ;
+		case 3 : if (maj == SF_FORMAT_RF64) { sf_command (s, SFC_RF64_AUTO_DOWNGRADE, NULL, SF_TRUE) ; opt = "|option:rf64-auto-downgrade" ; downgrade = 1 ; } break ;
+		default : break ;
+		}
+	vh_statf (1, "writer%s", opt [0] ? opt : "|option:none") ;
 	while (done < items)
 	{	long k = pmode == 0 ? items - done : pmode == 1 ? ch : ch * (1 + vh_rint (pmode == 2 ? 7 : 3000)) ; sf_count_t w ;
 		if (k > items - done) k = items - done ;
@@ -71,7 +80,8 @@ static void run_case (int format, int ch, long rate, long N, int pmode, sf_count
 		vh_viol (vh_key ("C04|reopen-failed|%s%s%s", fn, er < 0 ? "|rate-not-representable" : "", rate < 10 ? "|rate<10" : ""), "N=%ld ch=%d rate=%ld: %s", N, ch, rate, sf_strerror (NULL)) ; mv_free (&m) ; return ; }
 	F = (long) ri.frames ;
 	if (ri.channels != ch) vh_viol (vh_key ("C04|channels|%s", fn), "wrote %d channels, re-open reports %d", ch, ri.channels) ;
-	if ((ri.format & (SF_FORMAT_TYPEMASK | SF_FORMAT_SUBMASK)) != (format & (SF_FORMAT_TYPEMASK | SF_FORMAT_SUBMASK)))
+	if (downgrade && ((ri.format & SF_FORMAT_TYPEMASK) == SF_FORMAT_WAV || (ri.format & SF_FORMAT_TYPEMASK) == SF_FORMAT_WAVEX) && (ri.format & SF_FORMAT_SUBMASK) == (format & SF_FORMAT_SUBMASK)) vh_stat ("rf64_downgraded_to_wav", 1) ;	/* what SFC_RF64_AUTO_DOWNGRADE is documented to do for files below 4 GB */
+	else if ((ri.format & (SF_FORMAT_TYPEMASK | SF_FORMAT_SUBMASK)) != (format & (SF_FORMAT_TYPEMASK | SF_FORMAT_SUBMASK)))
 		vh_viol (vh_key ("C04|format|%s", fn), "wrote 0x%x, re-open reports 0x%x", format, ri.format) ;
 	{	int re = ri.format & SF_FORMAT_ENDMASK, we = format & SF_FORMAT_ENDMASK ; if (we == SF_ENDIAN_CPU) we = SF_ENDIAN_LITTLE ;
 		if (we != SF_ENDIAN_FILE && re != SF_ENDIAN_FILE && re != we && maj != SF_FORMAT_RAW)
@@ -83,7 +93,7 @@ static void run_case (int format, int ch, long rate, long N, int pmode, sf_count
 	/* frame count */
 	{	int ok = (F >= N && F < N + B) ;
 		if (!ok && B == 1 && F == N + 1 && (N & 1) && bytes_per_frame_is_one (format, ch)) { ok = 1 ; vh_stat ("pad_frame_accepted", 1) ; }
-		if (!ok) vh_viol (vh_key ("C04|frames|%s|%s%s", fn, F < N ? "F<N" : (B == 1 ? "F>N" : "F>=N+B"), rate < 10 ? "|rate<10" : ""), "wrote N=%ld frames (ch=%d, block %ld), re-open reports F=%ld (frames field at open was %lld)", N, ch, B, F, (long long) frames_in) ;
+		if (!ok) vh_viol (vh_key ("C04|frames|%s|%s%s%s", fn, F < N ? "F<N" : (B == 1 ? "F>N" : "F>=N+B"), rate < 10 ? "|rate<10" : "", opt), "wrote N=%ld frames (ch=%d, block %ld), re-open reports F=%ld (frames field at open was %lld)", N, ch, B, F, (long long) frames_in) ;
 		else vh_stat ("frames_ok", 1) ; }
 	/* read to EOF */
 	if (F >= 0 && F < 50000000)
